@@ -1,6 +1,7 @@
 #!/bin/sh
 # Runs the registered quick check of the property of each seeded change against /repo with the
 # change applied (then undone).  Results: seeded/<id>/check_result.txt.  Not part of any check.
+# Evidence and replay files of these runs go to a scratch directory (VERIF_OUTROOT), not to /verif/evidence.
 cd /verif
 LIST=""; if [ $# -gt 0 ]; then for a in "$@"; do LIST="$LIST seeded/$a"; done; else LIST=$(ls -d seeded/C*_m*); fi
 for d in $LIST; do
@@ -9,9 +10,10 @@ for d in $LIST; do
   git -C /repo checkout -q -- . ; 
   if ! git -C /repo apply $PWD/$d/patch.diff 2>/dev/null && ! git -C /repo apply --3way $PWD/$d/patch.diff 2>/dev/null; then echo "$id: patch does not apply" | tee $d/check_result.txt; git -C /repo checkout -q -- .; continue; fi
   start=$(date +%s)
-  timeout 2400 ./check $prop quick > /tmp/seeded_eval_out.txt 2>&1; rc=$?
+  VERIF_OUTROOT=/tmp/verif_seeded_scratch timeout 2400 ./check $prop quick > /tmp/seeded_eval_out.txt 2>&1; rc=$?
   end=$(date +%s)
   { echo "check=$prop exit=$rc seconds=$((end-start))"; grep -E "^(VIOLATION|KNOWN-FINDING|UNDECIDED|OK)" /tmp/seeded_eval_out.txt | cut -c1-600; grep -E "^   " /tmp/seeded_eval_out.txt | cut -c1-500 | head -6; } > $d/check_result.txt
   echo "$id: exit=$rc $(grep -c '^VIOLATION' /tmp/seeded_eval_out.txt) violation line(s)"
   git -C /repo checkout -q -- . ; git -C /repo reset -q --hard HEAD
 done
+rm -rf /tmp/verif_seeded_scratch
